@@ -11,15 +11,15 @@ import (
 )
 
 type FuncResult struct {
-	Statics   []string
-	Fn        string
-	Contract  *Contract
-	Obls      []*Obligation
-	Prelude   []string
-	Script    []string
-	Outside   string // non-empty: function outside the subset (reason)
-	Trusted   []string
-	Instrs    int
+	Statics  []string
+	Fn       string
+	Contract *Contract
+	Obls     []*Obligation
+	Prelude  []string
+	Script   []string
+	Outside  string // non-empty: function outside the subset (reason)
+	Trusted  []string
+	Instrs   int
 }
 
 // verifyFunction generates all obligations of one function under contract.
@@ -367,11 +367,11 @@ func valueSortOf(arr string) string {
 // World-level tables shared by all VCs.
 
 type worldTables struct {
-	strIds   map[string]int
-	strs     []string
-	funcIds  map[*ssa.Function]int
-	funcs    []*ssa.Function
-	globBox  map[*ssa.Global]int
+	strIds  map[string]int
+	strs    []string
+	funcIds map[*ssa.Function]int
+	funcs   []*ssa.Function
+	globBox map[*ssa.Global]int
 }
 
 func (w *World) strId(s string) int {
